@@ -8,6 +8,8 @@ import Tahoe.Dir.Pack
       → `ok:<hex of the packed bytes>` | `err:cap` | `err:imm`
   `unpack <mw|mr|i> <classtable> <normtable> <datahex>`
       → `ok:<namehex~node~mdhex;…>` (dict order) | `err`
+  `packp <classtable> <normtable> <children>`  the children are the nodes *wrapped* by ProhibitedNode; packs what
+      packing sees of the wrappers (`prohibitedView`) for a mutable directory → as `pack`
   `create <deep_immutable 0|1> <classtable> <writecaphex|N> <readcaphex|N>` → node   (create_from_cap)
   classtable = `-` | `caphex=cls,…`, cls = `k<m><w>.<canonhex>.<rohex>` | `tw` | `tm` | `u` | `b`
                (caps that are not listed are unknown caps)
@@ -117,6 +119,17 @@ def showChildren (l : List (Bytes × Child Bytes)) : String :=
   ";".intercalate (l.map (fun e => hexOfBytes e.1 ++ "~" ++ showNode e.2.node ++ "~" ++ hexOfBytes e.2.metadata))
 
 def handle : List String → String
+  | ["packp", ct, nt, ch] =>
+    -- children wrapped in ProhibitedNode (blacklisted), packed for a mutable directory
+    match parseClassTable ct, parseNormTable nt, parseChildren ch with
+    | some cls, some ntab, some children =>
+      let W := mkWorld cls ntab
+      let wrapped := children.map (fun c => (c.1, prohibitedView c.2.1, c.2.2))
+      (match pack W (some ()) false false (sortByName (normalizeChildren W wrapped)) with
+       | .ok b => "ok:" ++ hexOfBytes b
+       | .error .capError => "err:cap"
+       | .error .mustBeDeepImmutable => "err:imm")
+    | _, _, _ => "bad-op"
   | ["pack", mode, ct, nt, ch] =>
     match parseClassTable ct, parseNormTable nt, parseChildren ch with
     | some cls, some ntab, some children =>
